@@ -436,7 +436,7 @@ def parse_rfc_vectors():
         except FileNotFoundError:
             continue
         arrs = {}
-        for m in re.finditer(r"(?:let|const|static)\s+(?:mut\s+)?(\w+)\s*(?::\s*[^=]+)?=\s*\[([0-9a-fA-Fx_u,\s]+)\]\s*;", s):
+        for m in re.finditer(r"(?:let|const|static)\s+(?:mut\s+)?(\w+)\s*(?::\s*[^=]+)?=\s*&?\[([0-9a-fA-Fx_u,\s]+)\]\s*;", s):
             vals = [x.strip() for x in m.group(2).split(",") if x.strip()]
             try:
                 arrs[m.group(1).lower()] = [rust_int(v) for v in vals]
